@@ -445,6 +445,37 @@ fn specials(spec: &Spec, st: &mut Stats, found: &mut Vec<Violation>) {
             }
         }
     }
+    // (3c) re-recording that ends by the size limit replaces the old content
+    if spec.max < 100 {
+        let mut h = vec![Ev::T(2)];
+        h.extend(tap("r"));
+        h.extend(tap("a"));
+        h.extend(tap("s"));
+        h.push(Ev::T(20));
+        h.extend(tap("r"));
+        for _ in 0..8 {
+            h.extend(tap("b"));
+        }
+        h.push(Ev::T(20));
+        let n_play = h.len();
+        h.extend(tap("p"));
+        h.push(Ev::T(400));
+        st.evaluations += 1;
+        if let Ok(mut s) = Sim::new(&cfg) {
+            if s.run(&h[..n_play]).is_ok() {
+                let n0 = s.n_out();
+                if s.run(&h[n_play..]).is_ok() {
+                    st.validated += 1;
+                    let out = key_events(&crate::sim::parse_outputs(&s.raw_outputs()[n0..]));
+                    let presses: Vec<String> = out.iter().filter(|x| x.0).map(|x| x.1.clone()).collect();
+                    st.outcome("re-record-limit");
+                    if presses.iter().any(|k| k == "A" || k == "X") || !presses.iter().any(|k| k == "B") {
+                        push("re-record-limit", format!("{}: macro 1 = [a] re-recorded by typing b eight times (recording ends by the size limit {}): the replay pressed {presses:?}", spec.tag(), spec.max), &h, found);
+                    }
+                }
+            }
+        }
+    }
     // (4) size limit: type many keys without stopping; the recording must end by itself; play replays at most limit
     if spec.max < 100 {
         let mut h = vec![Ev::T(2)];
